@@ -6,6 +6,7 @@ import RedisVerif.Model.ShardsClock
   C03 sub-driver (stateful): the sharding layer over the small concrete executor.
     NEW <N> <fixed01> <n> (<key> <rs|-> <rb>)*     → ok     (rs = `-`: key is not UTF-8, byte paths only)
     <CMD> args…                                     → canonical reply
+    S <shared01> LOAD i | EXISTS i | FLUSH | EVAL i <key> | EVALSHA i <key>   → reply (script cache: node-global state)
     DUMP <fast01>                                   → aggregate dump taken through the public API
     TNEW <N> <carries: 7 × 0/1> <n> (<key> <rs|-> <rb>)*   → ok   timed stream (per-shard clocks, expiry);
           carries = which message kinds (generic fastGet fastSet pooledGet pooledSet batchGet batchSet) carry the time
@@ -23,6 +24,9 @@ structure DState where
   /-- timed streams: per-shard stores with deadlines and clocks -/
   tst : List Clock.TShard := []
   carries : Clock.Carries := Clock.allCarry
+  /-- the script cache(s): node-global state next to the keyspace -/
+  cache : NSet := []
+  priv : List NSet := []
 
 def DState.init : DState := { R := Routes.ofTable 1 [], fixed := true, st := [[]], utf8 := [] }
 
@@ -69,6 +73,7 @@ def parseCmd : P (Cmd sig) := do
   -- the same commands issued as Lua scripts (EVAL / SCRIPT LOAD + EVALSHA): routed by KEYS[1]
   | "EGET" => k1 .get
   | "ESGET" => k1 .get
+  | "XSGET" => k1 .get
   | "ESET" => kv .set
   | "ESSET" => kv .set
   | "EINCR" => k1 .incr
@@ -171,6 +176,18 @@ def parseTNew : P (Nat × Clock.Carries × List (Nat × Option Nat × Nat)) := d
   | some c => pure (n, c, tbl)
   | none => failure
 
+def parseS : P (Bool × SCmd) := do
+  expect "S"
+  let f ← nat
+  let t ← tok
+  match t with
+  | "LOAD" => do let i ← nat; pure (f != 0, .load i)
+  | "EXISTS" => do let i ← nat; pure (f != 0, .exists i)
+  | "FLUSH" => pure (f != 0, .flush)
+  | "EVAL" => do let i ← nat; let k ← strKey; pure (f != 0, .eval i k)
+  | "EVALSHA" => do let i ← nat; let k ← strKey; pure (f != 0, .evalsha i k)
+  | _ => failure
+
 def dedupSorted : List Nat → List Nat
   | [] => []
   | [x] => [x]
@@ -195,9 +212,16 @@ def step (d : DState) (line : String) : DState × String :=
     | some (n, f, tbl) =>
       let t : NMap (Nat × Nat) := NMap.ofList (tbl.map (fun e => (e.1, ((e.2.1.getD e.2.2), e.2.2))))
       let u : NSet := NSet.ofList ((tbl.filter (fun e => e.2.1.isSome)).map (·.1))
-      ({ R := Routes.ofTable n t, fixed := f, st := Shards.init SVal n, utf8 := u }, "ok")
+      ({ R := Routes.ofTable n t, fixed := f, st := Shards.init SVal n, utf8 := u,
+         cache := [], priv := List.replicate n [] }, "ok")
     | none => (d, "bad-op")
   | ["DUMP", f] => (d, dump d (f != "0"))
+  | "S" :: _ =>
+    match runP parseS line with
+    | some (shared, c) =>
+      let r := execS Str.exec .get d.R shared { cache := d.cache, priv := d.priv, st := d.st } c
+      ({ d with cache := r.1.cache, priv := r.1.priv, st := r.1.st }, showReply r.2)
+    | none => (d, "bad-op")
   | "TNEW" :: _ =>
     match runP parseTNew line with
     | some (n, f, tbl) =>
